@@ -32,6 +32,7 @@ template<class K> struct StaticCase {
     int lifecycle = -1; ///< how the queried object came to be (see object_lifecycle); -1: derived from the input hash
     std::string family;
     bool chunked = false;
+    uint64_t giant_n = 0, giant_base = 0, giant_stride = 0; ///< "giant_one_segment": keys = base + i * stride (not stored in witnesses)
     bool query_all = false; ///< every key is queried (cases whose faults are confined to a few hundred unpredictable keys)
     std::vector<size_t> seams; // indices of interest (chunk boundaries) for chunked cases
 };
@@ -265,9 +266,45 @@ StaticCase<K> gen_many_segments_case(Ctx &c) {
     return sc;
 }
 
+/// 36-44 million equally spaced keys built with one thread: ONE segment far longer than 2^25 positions. Equal spacing keeps
+/// the exact slope a dyadic rational times 1/stride, so whatever precision the implementation drops on the way (slope type,
+/// offset arithmetic) is the only source of error - and at this length a relative error of 2^-24 is several positions.
+template<class K>
+void fill_giant(StaticCase<K> &sc) {
+    using D = UDom<K>;
+    sc.keys.resize(sc.giant_n);
+    for (uint64_t i = 0; i < sc.giant_n; ++i) sc.keys[i] = D::to_key(sc.giant_base + i * sc.giant_stride);
+    sc.family = "giant_one_segment";
+    sc.threads = 1;
+    sc.lifecycle = 0;
+    sc.queries.clear();
+    const size_t n = sc.keys.size();
+    for (size_t i = 0; i < n; i += 89) sc.queries.push_back(sc.keys[i]);
+    for (size_t i = n > 20000 ? n - 20000 : 0; i < n; ++i) sc.queries.push_back(sc.keys[i]);
+    for (size_t i = 1; i < n; i += 7919) sc.queries.push_back(key_pred(sc.keys[i]));
+}
+template<class K>
+StaticCase<K> gen_giant_case(Ctx &c, uint64_t stride) {
+    StaticCase<K> sc;
+    sc.giant_n = 36000000 + c.rng.below(8000000);
+    sc.giant_base = c.rng.below(1000);
+    sc.giant_stride = stride;
+    fill_giant(sc);
+    return sc;
+}
+
 template<class K>
 StaticCase<K> make_static_case(Ctx &c, size_t eps, bool chunked, size_t maxn_small, size_t maxn_big, size_t eps_rec = 0) {
     StaticCase<K> sc;
+    if constexpr (std::is_integral_v<K>) {
+        if (c.given && c.given->one<uint64_t>("giant_n", 0) > 0) {
+            sc.giant_n = c.given->one<uint64_t>("giant_n", 0);
+            sc.giant_base = c.given->one<uint64_t>("giant_base", 0);
+            sc.giant_stride = c.given->one<uint64_t>("giant_stride", 1);
+            fill_giant(sc);
+            return sc;
+        }
+    }
     if (c.given) {
         sc.keys = c.given->vec<K>("keys");
         sc.queries = c.given->vec<K>("queries");
@@ -330,6 +367,12 @@ template<class K> Spec static_spec(const Ctx &c, const StaticCase<K> &sc, const 
     s.set_one("procs", sc.procs);
     s.set_one("lifecycle", sc.lifecycle);
     s.set_one("query_all", sc.query_all ? 1 : 0);
+    if (sc.giant_n) { // regenerated from three numbers
+        s.set_one("giant_n", sc.giant_n);
+        s.set_one("giant_base", sc.giant_base);
+        s.set_one("giant_stride", sc.giant_stride);
+        return s;
+    }
     s.set_vec("keys", sc.keys);
     if (queries_run.size() <= 2000) s.set_vec("queries", queries_run);
     if (!sc.seams.empty()) s.set_vec("seams", sc.seams);
@@ -828,6 +871,7 @@ void pgm_case(Ctx &c) {
     if (c.thorough() && c.case_idx % 16 == 15) big = size_t(1) << 20;
     StaticCase<K> sc;
     if constexpr (Mode == 2 && std::is_integral_v<K>) sc = c.given ? make_static_case<K>(c, Eps, true, 5000, big, EpsRec) : gen_huge_case<K>(c.rng, Eps);
+    else if constexpr (Mode == 6 && std::is_integral_v<K>) sc = c.given ? make_static_case<K>(c, Eps, true, 5000, big, EpsRec) : gen_giant_case<K>(c, sizeof(K) == 8 ? 11 : 1);
     else if constexpr (Mode == 4 && std::is_integral_v<K>) sc = c.given ? make_static_case<K>(c, Eps, true, 5000, big, EpsRec) : gen_big_case<K>(c, Eps);
     else if constexpr (Mode == 3 && std::is_integral_v<K>) {
         if (c.given) sc = make_static_case<K>(c, Eps, false, 5000, big, EpsRec);
@@ -868,6 +912,9 @@ void pgm_case(Ctx &c) {
 #define VF_PGM_SWEEP(K, E, ER, F)                                                                                      \
     VF_REGISTER(std::string("pgm/") + ::vf::KT<K>::name() + ",e" #E ",er" #ER "," #F "#sweep",                        \
                 (&::vf::pgm_case<K, E, ER, F, 5>), 0.0003)
+#define VF_PGM_GIANT(K, E, ER, F)                                                                                      \
+    VF_REGISTER(std::string("pgm/") + ::vf::KT<K>::name() + ",e" #E ",er" #ER "," #F "#giant",                        \
+                (&::vf::pgm_case<K, E, ER, F, 6>), 0.00001)
 #define VF_PGM_HUGE(K, E, ER, F)                                                                                       \
     VF_REGISTER(std::string("pgm/") + ::vf::KT<K>::name() + ",e" #E ",er" #ER "," #F "#huge",                         \
                 (&::vf::pgm_case<K, E, ER, F, 2>), 0.0003)
